@@ -117,6 +117,63 @@ func runCheck(repo, verif, prop, tier string) int {
 	if len(reps) == 0 {
 		return fail("no function under contract is tagged with " + prop)
 	}
+	// dependency closure: a proof that applies a callee's contract rests on that contract, so the callee (and, for an interface
+	// method, every implementer under contract) is verified in the same check; their obligations count for this property
+	if !allFuncs {
+		have := map[string]bool{}
+		for _, r := range reps {
+			have[baseKey(r.Key)] = true
+		}
+		for round := 0; round < 10; round++ {
+			want := map[string]bool{}
+			for _, r := range reps {
+				if r.Session == nil {
+					continue
+				}
+				for u := range r.Session.usedContracts {
+					kind, key := u[:strings.Index(u, ":")], u[strings.Index(u, ":")+1:]
+					if kind == "iface" {
+						ic := p.Contracts.Ifaces[key]
+						if ic == nil {
+							continue
+						}
+						for _, fk := range p.Contracts.sortedFuncKeys() {
+							fc := p.Contracts.Funcs[fk]
+							if fc.Kind != "func" || have[fk] {
+								continue
+							}
+							if fn := p.lookupFunc(fc.Pkg, fc.Func); fn != nil {
+								for _, ic2 := range p.ifaceContractsFor(fn) {
+									if ic2 == ic {
+										want[fk] = true
+									}
+								}
+							}
+						}
+					} else if !have[key] {
+						want[key] = true
+					}
+				}
+			}
+			if len(want) == 0 {
+				break
+			}
+			more := generate(p, func(c *Contract) bool { return want[c.Key()] })
+			for _, r := range more {
+				have[baseKey(r.Key)] = true
+				r.Dep = true
+				for _, o := range r.Obls {
+					if !contains(o.Props, prop) {
+						o.Props = append(append([]string{}, o.Props...), prop)
+					}
+				}
+			}
+			for k := range want {
+				have[k] = true
+			}
+			reps = append(reps, more...)
+		}
+	}
 	genSecs := time.Since(start).Seconds()
 	work := filepath.Join(verif, "work", prop)
 	os.RemoveAll(work)
@@ -390,10 +447,19 @@ func setKnownRacClauses(known []knownFinding) {
 	}
 }
 
+// baseKey strips the split-case suffix of a report key.
+func baseKey(k string) string {
+	if i := strings.Index(k, "["); i >= 0 && strings.HasSuffix(k, "]") {
+		return k[:i]
+	}
+	return k
+}
+
 func matchKnown(known []knownFinding, prop, obl string) *knownFinding {
 	for i := range known {
 		k := &known[i]
-		if k.Kind == "finding" && k.Property == prop && k.Obligation == obl {
+		// a finding recorded for one run-time oracle clause is handled inside the harness (it must not hide other failures of the same search)
+		if k.Kind == "finding" && k.Property == prop && k.Obligation == obl && k.Clause == "" {
 			return k
 		}
 	}
